@@ -9,6 +9,8 @@ import LzmaVerif.Model.LzipFile
 import LzmaVerif.Model.Split
 import LzmaVerif.Model.BcjStream
 import LzmaVerif.Model.Mem
+import LzmaVerif.Model.Options
+import LzmaVerif.Model.Parse
 /-! Request handlers: each maps a parsed request to the canonical answer line. -/
 namespace Driver
 open LzmaVerif
@@ -33,6 +35,17 @@ def showDecOut (o : DecOut) (reenc : Option Bool) : String :=
   | .capped => "capped"
 
 open Lzma in
+/-- the hypothesis of the round-trip theorems holds for a recovered parse: every symbol admissible, every
+    copy inside the dictionary, and the denoted history is `presetUsed ++ out` (an end marker is stripped) -/
+def parseDenotes (dictBuf : Nat) (presetUsed : Array Nat) (parse : List Sym) (out : Array Nat) : Bool :=
+  let body := match parse.getLast? with
+    | some (.mtch d _) => if d == END_DIST then parse.dropLast else parse
+    | _ => parse
+  match parseRun dictBuf body Coder.init presetUsed with
+  | some (_, h) => h == presetUsed ++ out
+  | none => false
+
+open Lzma in
 /-- `lzma.dec fmt=raw|alone lc= lp= pb= dict= size=<n|-> preset=<hex> in=<hex> cap=<n> reenc=<0|1>` -/
 def handleLzmaDec (a : Args) : String :=
   match a.get? "fmt", a.bytes? "in", a.bytes? "preset", a.nat? "cap" with
@@ -49,7 +62,8 @@ def handleLzmaDec (a : Args) : String :=
             let szOpt := if size = 2 ^ 64 - 1 then none else some size
             let dictBuf := lzmaReaderDictBuf dict (if size ≤ 2 ^ 63 - 1 then some size else none) presetA.size
             let presetUsed := presetA.extract (presetA.size - min presetA.size dictBuf) presetA.size
-            some (encodeParse (paramsOfProps p) dictBuf presetUsed szOpt parse == some (rest.take (consumed - 13)))
+            some (encodeParse (paramsOfProps p) dictBuf presetUsed szOpt (match szOpt with | some n => n + 1 | none => cap + 1) parse == some (rest.take (consumed - 13))
+                  && parseDenotes dictBuf presetUsed parse (match o with | .ok out _ _ => out | _ => #[]))
           else none
         | _, _ => none
       showDecOut o reenc
@@ -64,7 +78,8 @@ def handleLzmaDec (a : Args) : String :=
           | .ok _ consumed parse =>
             if wantReenc then
               let presetUsed := presetA.extract (presetA.size - min presetA.size dictBuf) presetA.size
-              some (encodeParse pr dictBuf presetUsed size parse == some (inp.take consumed))
+              some (encodeParse pr dictBuf presetUsed size (match size with | some n => n + 1 | none => cap + 1) parse == some (inp.take consumed)
+                  && parseDenotes dictBuf presetUsed parse (match o with | .ok out _ _ => out | _ => #[]))
             else none
           | _ => none
         showDecOut o reenc
@@ -186,6 +201,18 @@ def handleExpected (a : Args) : String :=
     | .errFinish => "errfinish"
   | _, _ => "bad-op"
 
+/-- `opts.validate kind=lzma|lzma2|xz dict= lc= lp= pb= nice= [fids=<ids> fprops=<props>]` -/
+def handleOpts (a : Args) : String :=
+  match a.get? "kind", a.nat? "dict", a.nat? "lc", a.nat? "lp", a.nat? "pb", a.nat? "nice" with
+  | some kind, some dict, some lc, some lp, some pb, some nice =>
+    let o : Options.LzOptions := { dict, lc, lp, pb, nice }
+    let ok := match kind with
+      | "lzma" => Options.validate o false
+      | "lzma2" => Options.validate o true
+      | _ => Options.xzValidate o (((a.nats? "fids").getD []).zip ((a.nats? "fprops").getD []))
+    if ok then "ok" else "err"
+  | _, _, _, _, _, _ => "bad-op"
+
 def showNats (l : List Nat) : String := if l.isEmpty then "-" else ",".intercalate (l.map toString)
 
 /-- `split.xz|split.lzip|split.mt lim=<n> parts=<n,n,…>` -/
@@ -204,6 +231,7 @@ def handle (cmd : String) (a : Args) : String :=
   match cmd with
   | "split.xz" | "split.lzip" | "split.mt" => handleSplit cmd a
   | "lzma.expected" => handleExpected a
+  | "opts.validate" => handleOpts a
   | "bcj.wstream" | "bcj.rstream" => handleBcjStream cmd a
   | "mem.enc" | "mem.lzmadec" | "mem.lzma2dec" => handleMem cmd a
   | "xz.dec" | "lzip.dec" => handleContainer cmd a
